@@ -241,22 +241,22 @@ impl S3OcflStore {
 
     /// Ensures that the root of a new object is a path inside the storage root that is not within
     /// the extensions directory and not nested within the root of another object
-    fn validate_object_root(&self, object_id: &str, object_root: &str) -> Result<()> {
+    fn validate_object_root(&self, action: &str, object_id: &str, object_root: &str) -> Result<()> {
         let parts: Vec<&str> = object_root.split('/').collect();
         let mut current = String::new();
 
         for (i, part) in parts.iter().enumerate() {
             if part.is_empty() || *part == "." || *part == ".." {
                 return Err(RocflError::IllegalState(format!(
-                    "Cannot create object {} because its object root, {}, is not a path within the storage root",
-                    object_id, object_root
+                    "Cannot {} object {} because its object root, {}, is not a path within the storage root",
+                    action, object_id, object_root
                 )));
             }
 
             if i == 0 && *part == EXTENSIONS_DIR {
                 return Err(RocflError::IllegalState(format!(
-                    "Cannot create object {} because its object root, {}, is within the storage root's extensions directory",
-                    object_id, object_root
+                    "Cannot {} object {} because its object root, {}, is within the storage root's extensions directory",
+                    action, object_id, object_root
                 )));
             }
 
@@ -264,8 +264,8 @@ impl S3OcflStore {
 
             if i + 1 < parts.len() && is_object_dir(&self.s3_client.list_dir(&current)?.objects) {
                 return Err(RocflError::IllegalState(format!(
-                    "Cannot create object {} because its object root, {}, is nested within the object at {}",
-                    object_id, object_root, current
+                    "Cannot {} object {} because its object root, {}, is nested within the object at {}",
+                    action, object_id, object_root, current
                 )));
             }
         }
@@ -489,7 +489,7 @@ impl OcflStore for S3OcflStore {
         self.ensure_open()?;
 
         let object_root = match self.get_object_root_path(&inventory.id) {
-            Some(object_root) => object_root,
+            Some(object_root) => util::trim_slashes(&object_root).to_string(),
             None => {
                 if let Some(root) = object_root {
                     util::trim_slashes(root).to_string()
@@ -502,7 +502,7 @@ impl OcflStore for S3OcflStore {
             }
         };
 
-        self.validate_object_root(&inventory.id, &object_root)?;
+        self.validate_object_root("create", &inventory.id, &object_root)?;
 
         if !self.s3_client.list_dir(&object_root)?.is_empty() {
             return Err(RocflError::IllegalState(format!(
@@ -596,8 +596,24 @@ impl OcflStore for S3OcflStore {
         let object_root = match self.lookup_or_find_object_root_path(object_id) {
             Err(RocflError::NotFound(_)) => return Ok(()),
             Err(e) => return Err(e),
-            Ok(object_root) => object_root,
+            Ok(object_root) => util::trim_slashes(&object_root).to_string(),
         };
+
+        // A storage layout may map an ID to a path outside of the storage root, to a path inside
+        // of another object, to a directory that other objects are stored beneath, or to the root
+        // of an object with a different ID. None of these is the object that was asked for.
+        self.validate_object_root("purge", object_id, &object_root)?;
+
+        if is_object_dir(&self.s3_client.list_dir(&object_root)?.objects) {
+            if let Ok(Some(inventory)) = self.parse_inventory(&object_root) {
+                if inventory.id != object_id {
+                    return Ok(());
+                }
+            }
+        } else if is_object_dir(&self.s3_client.list_objects(&object_root)?) {
+            // Not an object, but a directory that other objects are stored beneath
+            return Ok(());
+        }
 
         info!("Purging object {} at {}", object_id, object_root);
 
